@@ -66,6 +66,7 @@ func (c *fakeConn) PrepareContext(ctx context.Context, query string) (driver.Stm
 	c.stmts = append(c.stmts, st)
 	return st, nil
 }
+
 // Close: a connection database/sql gives up (driver.ErrBadConn) takes its
 // statements with it - database/sql does not close every one of them itself
 // (a statement re-prepared for a transaction by Tx.StmtContext is not in the
